@@ -52,6 +52,7 @@ type c10Input struct {
 	Cases  []c10Case  `json:"cases"`
 	Scheds []c10Sched `json:"scheds"`
 	Random int        `json:"random"`
+	Concurrent int    `json:"concurrent"` // concurrent-delivery trials
 }
 
 // symbolic hashing, mirrors TMMerkle.tla (used only to name concrete hashes)
@@ -273,6 +274,10 @@ func TestVerifC10(t *testing.T) {
 		run++
 		c10RunRandom(t, wp, run, rng)
 	}
+	for k := 0; k < in.Concurrent; k++ {
+		run++
+		c10RunConcurrent(t, wp, run, rng)
+	}
 	wp.f.Close()
 	t.Logf("C10 harness: %d case events, %d part-set events", wc.n, wp.n)
 }
@@ -337,6 +342,83 @@ func c10RunSched(t *testing.T, w *c10Writer, run int, seed int64, size int, s c1
 		w.emit(map[string]interface{}{"ev": "AddPart", "run": run, "part": ap, "added": added,
 			"err": c10ErrName(aerr), "post": c10Project(nm, ps, data)})
 	}
+}
+
+// several goroutines deliver genuine parts (with repeats, often the same index at the same moment) to one
+// PartSet; the outcome must be the outcome of SOME sequential order, which for genuine parts is unique
+func c10RunConcurrent(t *testing.T, w *c10Writer, run int, rng *rand.Rand) {
+	size := int(BlockPartSizeBytes)
+	if rng.Intn(3) == 0 {
+		size = 64
+	}
+	n := 2 + rng.Intn(3)
+	data := make([]byte, n*size)
+	rng.Read(data)
+	src := NewPartSetFromData(data, uint32(size))
+	names := make([]string, n)
+	for i := range names {
+		names[i] = "p" + strconv.Itoa(i)
+	}
+	nm := newC10Names(int64(run), size)
+	for i := 0; i < n; i++ {
+		b := src.GetPart(i).Bytes
+		nm.itemBytes[names[i]] = b
+		nm.itemName[hex.EncodeToString(b)] = names[i]
+	}
+	nm.registerTree(names)
+	ps := NewPartSetFromHeader(src.Header())
+	w.emit(map[string]interface{}{"ev": "Reset", "run": run, "data": names, "size": size,
+		"root": nm.nameOfHash(src.Hash()), "total": n})
+	g := 2 + rng.Intn(3)
+	plans := make([][]int, g)
+	hot := rng.Intn(n) // every goroutine starts with the same index: maximal contention
+	delivered := []int{}
+	for k := range plans {
+		plans[k] = []int{hot}
+		for j := 0; j < rng.Intn(3); j++ {
+			plans[k] = append(plans[k], rng.Intn(n))
+		}
+		delivered = append(delivered, plans[k]...)
+	}
+	start := make(chan struct{})
+	res := make(chan int, g)
+	for k := 0; k < g; k++ {
+		go func(plan []int) {
+			<-start
+			cnt := 0
+			for _, i := range plan {
+				gp := src.GetPart(i)
+				if added, err := ps.AddPart(&Part{Index: gp.Index, Bytes: gp.Bytes, Proof: gp.Proof}); added && err == nil {
+					cnt++
+				}
+			}
+			res <- cnt
+		}(plans[k])
+	}
+	close(start)
+	addedCount := 0
+	for k := 0; k < g; k++ {
+		addedCount += <-res
+	}
+	post := func() (p map[string]interface{}) {
+		defer func() {
+			if r := recover(); r != nil {
+				p = map[string]interface{}{"slots": []string{}, "count": int(ps.Count()), "complete": ps.IsComplete(),
+					"bytesize": int(ps.ByteSize()), "reasm": "panic"}
+				slots := make([]string, ps.Total())
+				for i := range slots {
+					slots[i] = "nil"
+					if pt := ps.GetPart(i); pt != nil {
+						slots[i] = nm.nameOfItem(pt.Bytes)
+					}
+				}
+				p["slots"] = slots
+			}
+		}()
+		return c10Project(nm, ps, data)
+	}()
+	w.emit(map[string]interface{}{"ev": "ConcurrentAdd", "run": run, "delivered": delivered, "goroutines": g,
+		"added_count": addedCount, "post": post})
 }
 
 // random data lengths / part sizes / delivery orders with mutated parts, abstracted by
